@@ -1,6 +1,7 @@
 package main
 
 import (
+	"os"
 	"fmt"
 	"go/constant"
 	"go/token"
@@ -319,6 +320,9 @@ func (c *Ctx) Run(init *State) []*PathResult {
 		c.runPath(st, 0)
 		if st.done != nil {
 			c.paths++
+			if c.cfg.Verbose && c.paths%50 == 0 {
+				fmt.Printf("  progress: paths=%d work=%d last=%s steps=%d queries=%d\n", c.paths, len(c.work), st.done.Outcome, st.steps, c.solver.Local.Queries)
+			}
 			if st.done.Outcome != OutInfeasible {
 				c.results = append(c.results, st.done)
 			}
@@ -548,7 +552,9 @@ func (c *Ctx) step(st *State) {
 		f.ip += len(phis)
 	case *ssa.BinOp:
 		c.set(f, x, c.binop(st, x.Op, c.get(st, f, x.X), c.get(st, f, x.Y), x.X.Type(), x.Y.Type()))
-		if st.done == nil && !f.unwinding {
+		if st.retry {
+			st.retry = false
+		} else if st.done == nil && !f.unwinding {
 			f.ip++
 		}
 	case *ssa.UnOp:
@@ -822,6 +828,15 @@ func (c *Ctx) binop(st *State, op token.Token, xv, yv Value, xt, yt types.Type) 
 		case token.SHL, token.SHR:
 			if isSigned(yt) {
 				if !c.forkPanic(st, tb.Sle(tb.Const(y.W, 0), y), "negative shift amount") {
+					return nil
+				}
+			}
+			y = c.subst(st, y)
+			if !y.IsConst() {
+				// shift amounts with few feasible values are enumerated (fork) so that later terms carry constant shifts
+				if vals := c.fewValues(st, y, 8); vals != nil {
+					c.forkValues(st, y, vals)
+					st.retry = true
 					return nil
 				}
 			}
@@ -1271,6 +1286,99 @@ func (c *Ctx) makeSlice(st *State, f *Frame, x *ssa.MakeSlice) {
 	f.ip++
 }
 
+// fewValues enumerates the feasible values of t if there are at most max of them; nil otherwise.
+func (c *Ctx) fewValues(st *State, t *Term, max int) []uint64 {
+	if os.Getenv("GOSMT_FEW") == "" {
+		return nil // experimental: enumerating small-range shift amounts costs more queries than it saves
+	}
+	if st.pcUnsure {
+		return nil
+	}
+	if st.noConst != nil {
+		if n, ok := st.noConst[t.ID]; ok && n == len(st.pc) {
+			return nil
+		}
+	}
+	var vals []uint64
+	extra := c.tb.True
+	probe := c.tb.Var("__conc", t.W)
+	sl := c.slice(st, t)
+	for len(vals) <= max {
+		ts := append(append([]*Term{}, sl...), extra, c.tb.Eq(probe, t))
+		r, m := c.solve(ts, 2000)
+		if r == Unsat {
+			return vals
+		}
+		if r == Unknown || m == nil {
+			break
+		}
+		v := m.Vars["__conc"]
+		vals = append(vals, v)
+		extra = c.tb.And(extra, c.tb.Ne(t, c.tb.Const(t.W, v)))
+	}
+	if st.noConst == nil {
+		st.noConst = map[int]int{}
+	}
+	st.noConst[t.ID] = len(st.pc)
+	return nil
+}
+
+// tryConst returns a constant if the path condition forces t to a single value (one model evaluation plus one
+// solver query "pc and t != v"); otherwise t itself. Keeps symbolic shift amounts and indices out of later terms.
+func (c *Ctx) tryConst(st *State, t *Term) *Term {
+	if t.IsConst() {
+		return t
+	}
+	if k, ok := st.subst[t.ID]; ok {
+		return k
+	}
+	if st.pcUnsure {
+		return t
+	}
+	if st.noConst != nil && st.noConst[t.ID] == len(st.pc) {
+		return t
+	}
+	if st.model == nil {
+		ok, m, unk := c.feasible(st, c.tb.True)
+		_ = ok
+		if m == nil || unk {
+			// obtain a model of the slice relevant to t
+			sl := c.slice(st, t)
+			r, mm := c.solve(append(append([]*Term{}, sl...), c.tb.Eq(t, t)), c.cfg.FeasTimeoutMs)
+			if r != Sat || mm == nil {
+				return t
+			}
+			m = mm
+		}
+		_ = m
+	}
+	var v uint64
+	if st.model != nil {
+		v = c.tb.Eval(t, st.model, map[int]uint64{})
+	} else {
+		sl := c.slice(st, t)
+		probe := c.tb.Var("__probe", t.W)
+		r, mm := c.solve(append(append([]*Term{}, sl...), c.tb.Eq(probe, t)), c.cfg.FeasTimeoutMs)
+		if r != Sat || mm == nil {
+			return t
+		}
+		v = mm.Vars["__probe"]
+	}
+	k := c.tb.Const(t.W, v)
+	ne := c.tb.Ne(t, k)
+	sl := c.slice(st, ne)
+	r, _ := c.solve(append(append([]*Term{}, sl...), ne), 1000)
+	if r == Unsat {
+		st.setSubst(t, k)
+		return k
+	}
+	if st.noConst == nil {
+		st.noConst = map[int]int{}
+	}
+	st.noConst[t.ID] = len(st.pc)
+	return t
+}
+
 func (c *Ctx) subst(st *State, t *Term) *Term {
 	if st.subst != nil {
 		if k, ok := st.subst[t.ID]; ok {
@@ -1326,9 +1434,11 @@ func (c *Ctx) forkValues(st *State, t *Term, vals []uint64) {
 	for i := 1; i < len(vals); i++ {
 		cl := st.clone()
 		cl.addPC(c, c.tb.Eq(t, c.tb.Const(t.W, vals[i])))
+		cl.setSubst(t, c.tb.Const(t.W, vals[i]))
 		c.work = append(c.work, cl)
 	}
 	st.addPC(c, c.tb.Eq(t, c.tb.Const(t.W, vals[0])))
+	st.setSubst(t, c.tb.Const(t.W, vals[0]))
 }
 
 func (c *Ctx) indexAddr(st *State, f *Frame, x *ssa.IndexAddr) {
